@@ -364,7 +364,19 @@ def script_relay_class():
                         rec['replies'][r] = (rp.code, rp.message)
                 if t == 'seq':
                     return res
-                return dict(zip(rcpts, res))
+                pairs = list(zip(rcpts, res))
+                # a mapping is keyed by recipient: its iteration order is
+                # the relay's business (e.g. a relay that groups by domain)
+                order = spec.get('order')
+                if order == 'reverse':
+                    pairs.reverse()
+                elif order == 'domain':
+                    pairs.sort(key=lambda p: (p[0].rsplit('@', 1)[-1], p[0]))
+                elif order == 'rotate' and len(pairs) > 1:
+                    pairs = pairs[1:] + pairs[:1]
+                if order:
+                    w.probe('mapping-in-other-order')
+                return dict(pairs)
             finally:
                 rec['truth'] = truth
                 rec['t1'] = w.loop._now
